@@ -35,14 +35,15 @@ def run(rep: Report) -> None:
     rep.trusted += ["python ast", "models in sma/gworld.py and sma/compile.py", "alias table"]
     n = 0
     for st in ("SX", "MX"):
-        for ideal in (False, True):
+        for ideal, variant in ((False, "merge"), (True, "merge"), (False, "bifurcation"), (False, "minimal")):
             for compact in (0, 1, 2):
                 for with_params in (False, True):
-                    if rep.tier == "quick" and st == "MX" and with_params:
+                    if rep.tier == "quick" and (st == "MX" or variant != "merge") and with_params:
                         continue
                     n += 1
-                    label = f"{st} compact={compact}{' ideal-origin' if ideal else ''}{' parameters' if with_params else ''}"
-                    net = CP.build_network(prog, st, vsl=False)
+                    label = (f"{st} compact={compact}{' ideal-origin' if ideal else ''}"
+                             f"{' parameters' if with_params else ''}{'' if variant == 'merge' else ' network=' + variant}")
+                    net = CP.build_network(prog, st, vsl=False, variant=variant)
                     w = net.w
                     if ideal:
                         o = w.origin("O1", "Origin")
